@@ -27,6 +27,7 @@ CASES = [
     (r'ef\.builder', r'(push|push_unchecked|build)', ['ef_builder', 'ef_seq']),
     (r'ef\.builder', r'.*', ['ef_seq', 'ef_builder', 'ef_dict']),
     (r'ef\.iter', r'.*', ['ef_seq']),
+    (r'k\.ef_concurrent', r'.*', ['ef_builder']),
     (r'ef\.scan', r'(EliasFanoIterator.*|iter|iter_from|into_iter|len)', ['ef_seq', 'ef_dict']),
     (r'ef\.scan', r'.*', ['ef_dict', 'ef_seq']),
     (r'ef\.(guards|dict).*', r'.*', ['ef_dict']),
